@@ -48,7 +48,11 @@ def session_events(tid, db, table, colname, tddapath, rex, perturb_rows, events,
     for kind, val in perturb_rows[:1]:
         try:
             cur = db.connection.cursor()
-            cur.execute('INSERT INTO %s VALUES (?)' % table, (val,))
+            ncols = len(cur.execute('PRAGMA table_info(%s)' % table).fetchall())
+            if ncols == 2:
+                cur.execute('INSERT INTO %s VALUES (?, ?)' % table, (val, 1 + cur.execute('SELECT COUNT(*) FROM %s' % table).fetchone()[0]))
+            else:
+                cur.execute('INSERT INTO %s VALUES (?)' % table, (val,))
             db.connection.commit()
             ev('AddRow', kind=kind)
             failed, n = dbl.verify(db, table, tddapath)
@@ -71,7 +75,7 @@ def discover_only(chk, rows, rnd, n, sig_kind='db-discovery'):
         sqltype = rnd.choice(dbl.SQLTYPE[col['t']])
         colname = rnd.choice(COLNAMES)
         try:
-            dbl.make_table(db, 't', colname, sqltype, [dbl.sqlvalue(col['t'], v, pool) for v in col['v']])
+            dbl.make_table(db, 't', colname, sqltype, [dbl.sqlvalue(col['t'], v, pool) for v in col['v']], shape=('composite' if cnt % 3 == 1 else 'plain'))
             try:
                 with cl.quiet():
                     cs = discover_db_table('sqlite', db, 't')
@@ -127,7 +131,7 @@ def run(chk):
             sqltype = rnd.choice(dbl.SQLTYPE[col['t']])
             colname = rnd.choice(COLNAMES)
             try:
-                dbl.make_table(db, 't', colname, sqltype, [dbl.sqlvalue(col['t'], v, pool) for v in col['v']])
+                dbl.make_table(db, 't', colname, sqltype, [dbl.sqlvalue(col['t'], v, pool) for v in col['v']], shape=('composite' if tid % 3 == 1 and colname != 'line_no' else 'plain'))
                 rex = col['t'] == 'string' and rnd.random() < 0.5
                 prow = [] if pb is None else [(pb['k'], dbl.sqlvalue(col['t'], pb['v'], pool))]
                 d = {'column': col, 'sqltype': sqltype, 'colname': colname, 'string_pool': pool, 'rex': rex, 'perturbation': pb,
@@ -202,7 +206,7 @@ def run(chk):
                     pert = [('max', math.nextafter(max(nnr), math.inf))]
                 else:
                     pert = [('min', math.nextafter(min(nnr), -math.inf))]
-            dbl.make_table(db, 't', colname, sqltype, vals)
+            dbl.make_table(db, 't', colname, sqltype, vals, shape=('composite' if tid % 3 == 1 else 'plain'))
             rex = kind in ('text', 'allnull', 'empty') and rnd.random() < 0.6
             if rex and rnd.random() < 0.6:
                 # "a string no expression matches": chosen after discovery, against the discovered expressions
